@@ -14,7 +14,9 @@ Inductive stmt :=
 | SGroup (path : str) (hs : list nat) (body : list stmt)
 | SCombo (path : str) (common : list nat) (uses : list cuse)
 | SAutoHead (b : bool)
-| SWrapper (b : bool).        (* HandlerWrapper(f) / HandlerWrapper(nil) between two declarations *)
+| SWrapper (b : bool)
+| SComboNew (id : nat) (path : str) (common : list nat)   (* c := r.Combo(path, common...) kept in a variable *)
+| SComboUse (id : nat) (m : str) (hs : list nat).          (* c.<Method>(hs...) later, possibly in another scope *)        (* HandlerWrapper(f) / HandlerWrapper(nil) between two declarations *)
 
 (* hdr: the statement is followed by .Headers(...) on the *Route it returns (Get: the GET route, not its
    HEAD twin; Routes: the route of the LAST method only; Any: the one route holding every method) *)
@@ -50,7 +52,13 @@ Definition methods_of (methods : str) (extra : list str) : list str :=
 
 (* ---------------- the code: an explicit stack of living groups ---------------- *)
 (* the two router settings that flow from one declaration to the next *)
-Record flags := mkf { f_ah : bool; f_wr : bool }.
+(* f_cs: the ComboRoute values made so far: id -> (path, common handlers, methods already added) *)
+Record flags := mkf { f_ah : bool; f_wr : bool; f_cs : list (nat * (str * list nat * list str)) }.
+Definition set_ah (b : bool) (fs : flags) : flags := mkf b (f_wr fs) (f_cs fs).
+Definition set_wr (b : bool) (fs : flags) : flags := mkf (f_ah fs) b (f_cs fs).
+Fixpoint find_combo (id : nat) (cs : list (nat * (str * list nat * list str))) : option (str * list nat * list str) :=
+  match cs with [] => None | (i, c) :: cs' => if Nat.eqb i id then Some c else find_combo id cs' end.
+Definition add_combo (id : nat) (c : str * list nat * list str) (fs : flags) : flags := mkf (f_ah fs) (f_wr fs) ((id, c) :: f_cs fs).
 Record gst := mkg { fl : flags; groups : list (str * list nat) (* outermost first *) }.
 Definition autohead (g : gst) : bool := f_ah (fl g).
 
@@ -66,7 +74,7 @@ Fixpoint combo_in (g : gst) (path : str) (common : list nat) (added : list str) 
   : option (flags * list freg) :=
   match uses with
   | [] => Some (fl g, [])
-  | CAuto b :: rest => combo_in (mkg (mkf b (f_wr (fl g))) (groups g)) path common added rest
+  | CAuto b :: rest => combo_in (mkg (set_ah b (fl g)) (groups g)) path common added rest
   | CUse m hs :: rest =>
       if existsb (str_eqb m) added then None
       else match combo_in g path common (m :: added) rest with
@@ -111,8 +119,18 @@ Fixpoint exec_stmt (fuel : nat) (g : gst) (s : stmt) {struct fuel} : option (gst
         end
     | SCombo path common uses =>
         match combo_in g path common [] uses with Some (ah, l) => Some (mkg ah (groups g), l) | None => None end
-    | SAutoHead b => Some (mkg (mkf b (f_wr (fl g))) (groups g), [])
-    | SWrapper b => Some (mkg (mkf (f_ah (fl g)) b) (groups g), [])
+    | SAutoHead b => Some (mkg (set_ah b (fl g)) (groups g), [])
+    | SWrapper b => Some (mkg (set_wr b (fl g)) (groups g), [])
+    | SComboNew id path common => Some (mkg (add_combo id (path, common, []) (fl g)) (groups g), [])
+    | SComboUse id m hs =>
+        (* the method call registers through the router as it is NOW: the groups living at the call, not at Combo() *)
+        match find_combo id (f_cs (fl g)) with
+        | None => None
+        | Some (path, common, added) =>
+            if existsb (str_eqb m) added then None
+            else Some (mkg (add_combo id (path, common, m :: added) (fl g)) (groups g),
+                       if str_eqb m m_get then get_in g path (common ++ hs) false else [route_in g m path (common ++ hs) false])
+        end
     end
   end.
 
@@ -128,7 +146,7 @@ Definition depth_list (l : list stmt) : nat := fold_right (fun s d => Nat.max (d
 
 (* w0: a HandlerWrapper is installed before the first declaration *)
 Definition exec (w0 : bool) (p : list stmt) : option (list freg) :=
-  match exec_list (S (depth_list p)) (mkg (mkf false w0) []) p with Some (_, r) => Some r | None => None end.
+  match exec_list (S (depth_list p)) (mkg (mkf false w0 []) []) p with Some (_, r) => Some r | None => None end.
 
 (* ---------------- the specification: flat expansion with the lexical prefix ---------------- *)
 Definition reg_at (fs : flags) (pp : str) (ph : list nat) (m path : str) (hs : list nat) (hdr : bool) : freg :=
@@ -141,7 +159,7 @@ Fixpoint combo_at (ah : flags) (pp : str) (ph : list nat) (path : str) (common :
   (uses : list cuse) : option (flags * list freg) :=
   match uses with
   | [] => Some (ah, [])
-  | CAuto b :: rest => combo_at (mkf b (f_wr ah)) pp ph path common added rest
+  | CAuto b :: rest => combo_at (set_ah b ah) pp ph path common added rest
   | CUse m hs :: rest =>
       if existsb (str_eqb m) added then None
       else match combo_at ah pp ph path common (m :: added) rest with
@@ -165,15 +183,24 @@ Fixpoint flatten_stmt (ah : flags) (pp : str) (ph : list nat) (s : stmt) {struct
       seq_list (fun ah s => flatten_stmt ah (pp ++ path) (ph ++ hs) s) ah body
   | SCombo path common uses =>
       combo_at ah pp ph path common [] uses
-  | SAutoHead b => Some (mkf b (f_wr ah), [])
-  | SWrapper b => Some (mkf (f_ah ah) b, [])
+  | SAutoHead b => Some (set_ah b ah, [])
+  | SWrapper b => Some (set_wr b ah, [])
+  | SComboNew id path common => Some (add_combo id (path, common, []) ah, [])
+  | SComboUse id m hs =>
+      match find_combo id (f_cs ah) with
+      | None => None
+      | Some (path, common, added) =>
+          if existsb (str_eqb m) added then None
+          else Some (add_combo id (path, common, m :: added) ah,
+                     if str_eqb m m_get then get_at ah pp ph path (common ++ hs) false else [reg_at ah pp ph m path (common ++ hs) false])
+      end
   end.
 
 Definition flatten_list (ah : flags) (pp : str) (ph : list nat) (l : list stmt) : option (flags * list freg) :=
   seq_list (fun ah s => flatten_stmt ah pp ph s) ah l.
 
 Definition flatten (w0 : bool) (p : list stmt) : option (list freg) :=
-  match flatten_list (mkf false w0) [] [] p with Some (_, r) => Some r | None => None end.
+  match flatten_list (mkf false w0 []) [] [] p with Some (_, r) => Some r | None => None end.
 
 (* ---------------- handlers at registration: validated and wrapped, all of them ---------------- *)
 (* router.Route runs validateAndWrapHandlers over the CONCATENATED list (group handlers included).
